@@ -147,6 +147,16 @@ type c01pWorld struct {
 	// the snapshot taken by the last observe() (nothing is called between an observation and a freshCompare)
 	lastRoot [2][4]int64
 	lastQs   map[int]*c01pObsQ
+	// scale cases (every 5th): the plugin's managers are built with min-quota scaling ON (ElasticQuotaArgs default
+	// EnableMinQuotaScale=true); the case gives the observed manager a cluster total around the summed min of a set of mostly
+	// non-lending siblings (B streams: Plugin.OnNodeAdd / OnNodeDelete; stream A: SetTotalResourceForTree, the call
+	// handlerQuotaWhenRoot makes for a root quota's total annotation) and calls RefreshRuntime (as PreFilter and the status
+	// controller do), which lowers CalculateInfo.AutoScaleMin.  The request floor of a non-lending group stays its DECLARED min.
+	scale     bool
+	scaleSibs []int
+	nodes     map[int]*corev1.Node // nodes of this case currently known to the plugin (B streams)
+	treeTotal [2]int64             // stream A: total handed to SetTotalResourceForTree
+	nextNode  int
 }
 
 func (w *c01pWorld) qname(i int) string {
@@ -758,6 +768,189 @@ func (w *c01pWorld) freshCompare() {
 			w.bad("C01:fresh-mismatch", "plugin level: quota %d: incremental %v, fresh manager fed the final objects %v", n, qs[n].d, fq.d)
 			return
 		}
+	}
+}
+
+// ---------- min-quota scaling (AutoScaleMin) ----------
+
+// opQuotaAddSpec: OnQuotaAdd of a new quota with the given content.
+func (w *c01pWorld) opQuotaAddSpec(sp *c01pSpec) {
+	h := w.h
+	obj := w.mkQuota(sp)
+	h.Tag("pl:quota-add")
+	w.opQuotaLine(sp)
+	w.specs[sp.name], w.objs[sp.name] = sp, obj
+	if h.Guard(func() { w.pl.OnQuotaAdd(obj) }) {
+		h.Obs("panic")
+		return
+	}
+	w.observe()
+}
+
+func (w *c01pWorld) sumMin() (sum [2]int64, sibs []int) {
+	for _, n := range w.scaleSibs {
+		if sp := w.specs[n]; sp != nil {
+			sibs = append(sibs, n)
+			sum[0] += sp.min[0]
+			sum[1] += sp.min[1]
+		}
+	}
+	return
+}
+
+// opNodeAdd: a node with the given allocatable joins (B streams), or the tree total grows by it (stream A).
+func (w *c01pWorld) opNodeAdd(alloc [2]int64) {
+	h := w.h
+	mgr := w.mgr()
+	if mgr == nil {
+		return
+	}
+	h.Op("total %d %d", alloc[0], alloc[1]) // no effect on the accounting
+	h.Tag("pl:node-add")
+	var p bool
+	if w.same {
+		w.nextNode++
+		node := &corev1.Node{ObjectMeta: metav1.ObjectMeta{Name: fmt.Sprintf("v%dnode%d", w.idx, w.nextNode)},
+			Status: corev1.NodeStatus{Allocatable: c01pRL(alloc)}}
+		w.nodes[w.nextNode] = node
+		p = h.Guard(func() { w.pl.OnNodeAdd(node) })
+	} else {
+		w.treeTotal[0] += alloc[0]
+		w.treeTotal[1] += alloc[1]
+		p = h.Guard(func() { mgr.SetTotalResourceForTree(c01pRL(w.treeTotal)) })
+	}
+	if p {
+		h.Obs("panic")
+		return
+	}
+	w.observe()
+}
+
+// opNodeDelete: one of the case's nodes goes (B streams); stream A: the tree total shrinks to num/8.
+func (w *c01pWorld) opNodeDelete(num int64) {
+	h := w.h
+	mgr := w.mgr()
+	if mgr == nil {
+		return
+	}
+	var p bool
+	if w.same {
+		var ids []int
+		for id := range w.nodes {
+			ids = append(ids, id)
+		}
+		if len(ids) == 0 {
+			return
+		}
+		sort.Ints(ids)
+		id := ids[w.r.Intn(len(ids))]
+		node := w.nodes[id]
+		delete(w.nodes, id)
+		a := node.Status.Allocatable
+		h.Op("total %d %d", -c01pVal(a, 0), -c01pVal(a, 1))
+		h.Tag("pl:node-delete")
+		var arg interface{} = node
+		if w.r.Chance(1, 3) {
+			arg = cache.DeletedFinalStateUnknown{Key: node.Name, Obj: node}
+		}
+		p = h.Guard(func() { w.pl.OnNodeDelete(arg) })
+	} else {
+		nt := [2]int64{w.treeTotal[0] * num / 8, w.treeTotal[1] * num / 8}
+		h.Op("total %d %d", nt[0]-w.treeTotal[0], nt[1]-w.treeTotal[1])
+		h.Tag("pl:tree-total-shrink")
+		w.treeTotal = nt
+		p = h.Guard(func() { mgr.SetTotalResourceForTree(c01pRL(nt)) })
+	}
+	if p {
+		h.Obs("panic")
+		return
+	}
+	w.observe()
+}
+
+func (w *c01pWorld) opRefresh(n int) {
+	h := w.h
+	mgr := w.mgr()
+	if mgr == nil || w.specs[n] == nil {
+		return
+	}
+	h.Op("refresh %d", n) // no effect on the accounting
+	h.Tag("pl:refresh-runtime")
+	if h.Guard(func() { mgr.RefreshRuntime(w.qname(n)) }) {
+		h.Obs("panic")
+		return
+	}
+	w.observe()
+	// coverage only: a non-lending group whose AutoScaleMin is below its declared min
+	for _, s := range mgr.GetQuotaSummaries(false) {
+		if !s.AllowLentResource && w.qid(s.Name) > 1 {
+			for k := 0; k < 2; k++ {
+				if c01pVal(s.AutoScaleMin, k) < c01pVal(s.Min, k) {
+					h.Tag("pl:scale:nonlending-min-scaled-down")
+					if c01pVal(s.ChildRequest, k) < c01pVal(s.Min, k) {
+						h.Tag("pl:scale:floor-active-under-scaled-min")
+					}
+				}
+			}
+		}
+	}
+}
+
+// scaleScenario: 2-3 siblings below the root with min > 0, most of them non-lending; two nodes that together cover their
+// summed min, one of them goes; RefreshRuntime of the siblings; pods labelled with them.
+func (w *c01pWorld) scaleScenario() {
+	r := w.r
+	w.h.Tag("pl:scale:scenario")
+	if w.nextQ < 3 {
+		w.nextQ = 3 // opPodAdd(force) reads 1 / 2 as "awaited quota"
+	}
+	for i, n := 0, r.Range(2, 3); i < n; i++ {
+		sp := &c01pSpec{name: w.nextQ, parent: 1, isParent: r.Chance(1, 5), lend: r.Chance(1, 4)}
+		w.nextQ++
+		for k := 0; k < 2; k++ {
+			sp.min[k] = w.val(k, 8) + [2]int64{500, 1 << 28}[k]
+			sp.max[k] = sp.min[k] + w.val(k, 14)
+		}
+		w.opQuotaAddSpec(sp)
+		w.scaleSibs = append(w.scaleSibs, sp.name)
+	}
+	sum, sibs := w.sumMin()
+	// two nodes: the first alone is below the summed min in both dimensions, both together cover it
+	a := [2]int64{sum[0] * int64(r.Range(1, 7)) / 8, sum[1] * int64(r.Range(1, 7)) / 8}
+	a[0] -= a[0] % 250
+	b := [2]int64{sum[0] - a[0] + w.val(0, 4), sum[1] - a[1] + w.val(1, 4)}
+	w.opNodeAdd(a)
+	w.opNodeAdd(b)
+	if r.Chance(1, 2) {
+		w.opRefresh(sibs[r.Intn(len(sibs))])
+	}
+	if r.Chance(1, 3) {
+		w.opPodAdd(sibs[r.Intn(len(sibs))])
+	}
+	w.opNodeDelete(int64(r.Range(0, 6)))
+	for _, n := range sibs {
+		if r.Chance(5, 6) {
+			w.opRefresh(n)
+		}
+	}
+	for i, n := 0, r.Range(1, 3); i < n; i++ {
+		w.opPodAdd(sibs[r.Intn(len(sibs))])
+	}
+}
+
+func (w *c01pWorld) scaleNudge() {
+	r := w.r
+	qids := w.qids()
+	switch x := r.Intn(6); {
+	case x == 0:
+		sum, _ := w.sumMin()
+		a := [2]int64{sum[0] * int64(r.Range(1, 6)) / 8, sum[1] * int64(r.Range(1, 6)) / 8}
+		a[0] -= a[0] % 250
+		w.opNodeAdd(a)
+	case x == 1:
+		w.opNodeDelete(int64(r.Range(0, 7)))
+	case len(qids) > 0:
+		w.opRefresh(qids[r.Intn(len(qids))])
 	}
 }
 
@@ -1492,6 +1685,9 @@ func (w *c01pWorld) scripted(variant int) int {
 
 func (w *c01pWorld) cleanup() {
 	pl := w.pl
+	for _, node := range w.nodes { // the shared default manager gets its cluster total back
+		pl.OnNodeDelete(node)
+	}
 	// leave nothing behind in the shared plugin
 	for _, pv := range w.pods {
 		pl.OnPodDelete(pv.obj)
@@ -1552,7 +1748,8 @@ func TestVerifC01Plugin(t *testing.T) {
 		}
 		w := &c01pWorld{h: h, r: r, pl: pl, idx: idx, lvl: lvl, specs: map[int]*c01pSpec{},
 			objs: map[int]*schedv1alpha1.ElasticQuota{}, pods: map[int]*c01pPV{}, def: map[int]*c01pPV{},
-			home: map[int]int{}, nextQ: 2, nextP: 1}
+			home: map[int]int{}, nextQ: 2, nextP: 1, nodes: map[int]*corev1.Node{}}
+		w.scale = idx%5 == 2
 		restore := func() {}
 		switch {
 		case idx%4 == 1: // B1
@@ -1582,12 +1779,19 @@ func TestVerifC01Plugin(t *testing.T) {
 		nops := r.Range(20, 45)
 		mid := r.Range(5, nops-1)
 		target := 0
+		if w.scale {
+			h.Tag("pl:scale:case")
+			w.scaleScenario()
+		}
 		if idx%3 == 0 {
 			target = w.scripted((idx / 3) % 8)
 			nops -= 6
 		}
 		for i := 0; i < nops; i++ {
 			w.step()
+			if w.scale && r.Chance(1, 5) {
+				w.scaleNudge()
+			}
 			if i == mid {
 				w.freshCompare()
 			}
@@ -1618,6 +1822,9 @@ func TestVerifC01Plugin(t *testing.T) {
 		"D1 pod updated/bound between OnQuotaAdd and the migration call, D2 deleted in that window, D3 resized while the default group holds it, two pods in one call, D4 resized in the window then deleted before the call, " +
 		"D5 relabelled while the default group holds it before its quota exists, D6 relabelled between OnQuotaAdd and the call (registered finding, own fingerprint); " +
 		"the same happens at random in every case (VERIF_C01P_FREE=0 restores the restricted generator, =1 everything but D6); " +
+		"every 5th case (index%5 == 2; the plugin's managers have min-quota scaling ON by default) starts with 2-3 root-level siblings with min > 0 (3/4 non-lending), two nodes covering their summed min " +
+		"(B streams: Plugin.OnNodeAdd / OnNodeDelete incl. DeletedFinalStateUnknown; stream A: SetTotalResourceForTree), one node gone, RefreshRuntime of the siblings (what PreFilter / the status controller call), " +
+		"pods labelled with them, and further node / refresh calls in between the random calls; the case's nodes are removed at its end; " +
 		"a fresh manager is fed the final objects in the middle and at the end of every case; " +
 		"non-trivial = some quota's request exceeded its max")
 }
